@@ -30,7 +30,7 @@ REAL = ["rpyc.core.brine", "rpyc.core.channel.Channel", "rpyc.core.protocol.Conn
 STUB = ["the other party in directions (a)/(b) is the independent reference peer", "sockets/time/locks (simulator)"]
 ASSUMPTIONS = ["ref/codec.py is the published format (tags 0x00-0x1b, immediate ints -0x30..0x9f as 0x20..0xef, '!LB' header, newline trailer, "
                "zlib level 1 above 3000 bytes, kinds 1-3, labels 1-4, handlers 1-20)"]
-PROBES = ["c19:compressed-frame", "c19:long-tag", "c19:ref-client", "c19:ref-server", "c19:real-real", "c19:boxing-label", "c19:incompressible-payload", "c19:async-helper-call", "c19:unrepresentable-text", "c19:no-zlib-platform"]
+PROBES = ["c19:compressed-frame", "c19:long-tag", "c19:ref-client", "c19:ref-server", "c19:real-real", "c19:boxing-label", "c19:incompressible-payload", "c19:async-helper-call", "c19:unrepresentable-text", "c19:no-zlib-platform", "c19:size-class-edge", "c19:callattr-with-arguments"]
 
 
 def check_stream(sim, raw, compress_enabled, who, allow_cut=False):
